@@ -24,13 +24,38 @@ var ruleSets = map[string]func(a *Analyzer, r *Results){
 	"c02":    runC02,
 	"c12":    runC12,
 	"c17":    runC17,
+	"chan":   runChannels,
+	"spawn":  runSpawn,
+	"locks":  runLocks,
+	"registry": runRegistry,
+	"setters": runStateSetters,
+	"sync":   runSyncShape,
+	"loops":  runLoops,
+	"shutdown": runShutdown,
+	"timer":  runTimer,
 }
 
 // which rule sets each property needs
 var propSets = map[string][]string{
-	"C01": {"ingest", "proof"}, "C03": {"ingest"}, "C04": {"ingest"}, "C05": {"ingest"}, "C07": {"ingest", "proof"}, "C08": {"ingest", "proof"},
-	"C09": {"ingest"}, "C10": {"ingest"}, "C11": {"ingest", "proof"}, "C15": {"ingest"}, "C17": {"ingest", "c17"},
-	"C02": {"c02", "c12"}, "C06": {"c06"}, "C12": {"c12", "c18"}, "C18": {"c18"}, "C19": {"c19f"},
+	"C01": {"ingest", "proof", "c06"},
+	"C02": {"c02", "c12"},
+	"C03": {"ingest"},
+	"C04": {"ingest"},
+	"C05": {"ingest", "chan", "loops", "setters"},
+	"C06": {"c06"},
+	"C07": {"ingest", "proof"},
+	"C08": {"ingest", "proof"},
+	"C09": {"ingest"},
+	"C10": {"ingest", "setters"},
+	"C11": {"ingest", "proof"},
+	"C12": {"c12", "c18"},
+	"C13": {"ingest", "setters", "locks", "registry", "loops"},
+	"C14": {"ingest", "chan", "sync", "loops", "registry", "shutdown"},
+	"C15": {"ingest", "registry", "locks", "loops", "sync", "shutdown"},
+	"C16": {"chan", "spawn", "shutdown", "timer", "c12", "registry"},
+	"C17": {"ingest", "c17"},
+	"C18": {"c18"},
+	"C19": {"c19f", "timer", "chan", "loops", "ingest"},
 }
 
 // minimum number of obligation instances per rule confirmed by reading (vacuity guard)
